@@ -3,7 +3,7 @@
    deterministic.py / base_ode_model.py on every run.  A = any commutative ring (rates, magnitudes and
    ODE terms are values: the identities hold identically in states, parameters and time). *)
 From Coq Require Import List Arith Ring.
-From PV Require Import Assembly AssemblyProofs Gen.AssemblyGen.
+From PV Require Import Assembly AssemblyProofs Reactant ReactantProofs Gen.AssemblyGen.
 Import ListNotations.
 
 (* the loops extracted from the current source are the canonical accumulation tables *)
@@ -11,8 +11,15 @@ Theorem C01_code_is_model :
   translator_ok = true /\
   ode_table_ok ode_tab ode_res = true /\ oscope_ok ode_scope ode_res = true /\
   vmat_table_ok vmat_tab vmat_res = true /\
-  rate_scope_ok rate_scope rate_res = true /\ oscope_ok pure_scope pure_res = true.
+  rate_scope_ok rate_scope rate_res = true /\ oscope_ok pure_scope pure_res = true /\
+  set_table_ok reactant_tab = true.
 Proof. vm_compute. repeat split. Qed.
+
+(* get_ReactantMatrix, as extracted: lambda[i][j] = 1 exactly when state i takes part in a transition of event j *)
+Theorem C01_reactant_assembled : forall (A : Type) (evs : list (event A)) i j,
+  reactant A reactant_tab evs i j = match nth_error evs j with Some e => involved A e i | None => false end.
+Proof. intros A. exact (set_table_sound A reactant_tab eq_refl). Qed.
+Print Assumptions C01_reactant_assembled.
 
 Section Ring.
   Variables (A : Type) (a0 a1 : A) (add mul sub : A -> A -> A) (opp : A -> A).
